@@ -213,7 +213,8 @@ def run(chk):
             gtype = "annulus"
             nz = 3
         else:
-            g = {"x_min": 0.0, "x_max": 0.0, "y_min": 0.0, "y_max": 0.0, "z_min": 4371000.0, "z_max": 6371000.0}
+            # every second sphere is a full ball (inner radius 0: all nodes of the innermost layer sit at the centre)
+            g = {"x_min": 0.0, "x_max": 0.0, "y_min": 0.0, "y_max": 0.0, "z_min": 4371000.0 if (gi // 7) % 2 == 0 else 0.0, "z_max": 6371000.0}
             gtype = "sphere"
             nx = ny = 2
             nz = 2
@@ -401,12 +402,24 @@ def run(chk):
                     viol.append(("values stored at node %d differ from the library's answer at that node: %s vs %s" % (i, got, [cxx_g(v) for v in ans]), rep))
                     break
         else:
-            ro = r["g"]["z_max"]
+            ro, ri = r["g"]["z_max"], r["g"]["z_min"]
+            shells = {}
             for p, dep in zip(pts, depth):
                 rad = math.sqrt(sum(c * c for c in p))
-                if abs((ro - rad) - dep) > 1e-4 * ro:
+                if not (all(math.isfinite(c) for c in p) and math.isfinite(dep)):
+                    viol.append(("a node of the %s grid has a position / Depth that is not a finite number (%s, Depth %s)" % (r["kind"], p, dep), rep))
+                    break
+                if not (abs((ro - rad) - dep) <= 1e-4 * ro):
                     viol.append(("Depth %g is not the distance %g below the top of the grid" % (dep, ro - rad), rep))
                     break
+                k_ = (rad - ri) / ((ro - ri) / nz)
+                if abs(k_ - round(k_)) > 1e-3 or not (0 <= round(k_) <= nz):
+                    viol.append(("a node of the sphere grid at radius %g lies on none of the %d requested layers between %g and %g" % (rad, nz + 1, ri, ro), rep))
+                    break
+                shells[int(round(k_))] = shells.get(int(round(k_)), 0) + 1
+            else:
+                if r["kind"] == "sphere" and (sorted(shells) != list(range(nz + 1)) or len(set(shells.values())) != 1):
+                    viol.append(("the layers of the sphere grid do not carry the same number of nodes each: %s" % shells, rep))
         # filtered and by-tag files
         wj = rep["world"]
         names = []
